@@ -776,3 +776,76 @@ class SymBytes:
 
     def __bytes__(self):
         return bytes(self.concrete())
+
+
+class SymStr:
+    """a str of concrete length whose characters are symbolic 7-bit codes (only what the
+    device-path dispatch needs: slicing, ==/!= with str, len, startswith, use as an opaque argument)"""
+    __slots__ = ("c",)
+
+    def __init__(self, chars):
+        self.c = list(chars)
+
+    def __len__(self):
+        return len(self.c)
+
+    def __getitem__(self, i):
+        if isinstance(i, slice):
+            return SymStr(self.c[slice(conc(i.start), conc(i.stop), conc(i.step))])
+        return SymStr([self.c[conc(i)]])
+
+    def _eq(self, o):
+        if isinstance(o, str):
+            o = [ord(ch) for ch in o]
+        elif isinstance(o, SymStr):
+            o = o.c
+        else:
+            return False
+        if len(o) != len(self.c):
+            return False
+        acc = []
+        for x, y in zip(self.c, o):
+            e = (x == y)
+            if e is False:
+                return False
+            if e is not True:
+                acc.append(e.t)
+        if not acc:
+            return True
+        return SymBool(z3.And(*acc) if len(acc) > 1 else acc[0])
+
+    def __eq__(self, o):
+        return self._eq(o)
+
+    def __ne__(self, o):
+        r = self._eq(o)
+        return (not r) if isinstance(r, bool) else ~r
+
+    def startswith(self, p, *a):
+        return self[:len(p)] == p
+
+    def __hash__(self):
+        return hash(self.concrete())
+
+    def concrete(self):
+        return "".join(chr(conc(x)) for x in self.c)
+
+    def __repr__(self):
+        return "<symstr len=%d>" % len(self.c)
+
+    __str__ = __repr__
+
+    def __format__(self, spec):
+        return "<symstr>"
+
+    def __add__(self, o):
+        if isinstance(o, SymStr):
+            return SymStr(self.c + o.c)
+        if isinstance(o, str):
+            return SymStr(self.c + [ord(ch) for ch in o])
+        return NotImplemented
+
+    def __radd__(self, o):
+        if isinstance(o, str):
+            return SymStr([ord(ch) for ch in o] + self.c)
+        return NotImplemented
